@@ -6,31 +6,25 @@ CONSTANTS
   TDiscWait = 5
   TDiscResp = 10
   TCall = 10
-  Configs <- ConnectConfigs
-  MaxEnv = 7
-  MaxFaults = 2
-  Msgs <- ConnectMsgs
+  Configs <- DispConfigs
+  MaxEnv = 5
+  MaxFaults = 0
+  Msgs <- DispMsgs
   MaxChunk = 2
   UseCalls = FALSE
-  UseSubs = FALSE
+  UseSubs = TRUE
   GenMode = FALSE
-  StartConnected = FALSE
+  StartConnected = TRUE
   Grid = 0
   TrackKA = FALSE
-  SubKinds = {"A"}
+  SubKinds = {"A", "*"}
 SPECIFICATION MCSpec
 VIEW mcview
 CONSTRAINT Horizon
 INVARIANT ConnectedFlag
-INVARIANT SessionOnlyIfCompatible
-INVARIANT FailedConnectClosedNoStop
 INVARIANT StopAtMostOnce
-INVARIANT StopOnlyIfConnected
-INVARIANT StopWhenClosedAfterConnected
 INVARIANT Released
-INVARIANT ReleasedAtRest
-INVARIANT ClassifiedErrors
-PROPERTY ForwardOnly
+PROPERTY DispatchExact
 PROPERTY ClosedFinal
 PROPERTY Silent
 CHECK_DEADLOCK FALSE
